@@ -26,6 +26,7 @@ RULE = (
     "phase-aware and linear mode; linear-accepts => phase-aware-accepts; the comparison is repeated "
     "after update_constraint on a live network/interface. Sub-check 'unconstrained': constraint-free "
     "networks accept everything and the three bundled schedulers complete a simulation on them. "
+    "Every question is asked twice (after the other mode was asked, linear-first in half of the cases; in a quarter a lenient what-if query of the same shape comes first) and the InfrastructureInfo handed to the algorithm-side check must be unchanged afterwards. "
     "Non-trivial = the binding margin is within 3 tolerances (or 1e-6) of zero, or a mixed-sign row "
     "with non-zero phases is present; distinct by spec hash."
 )
@@ -73,9 +74,18 @@ def _compare(spec, net, iface, constraints, rec, stage):
             continue
         dict_sched[sid] = list(M[i])
     info = iface.infrastructure_info()
+    info_before = (np.array(info.constraint_matrix, dtype=float), np.array(info.constraint_limits, dtype=float), np.array(info.phases, dtype=float))
     got = {}
     labels = set()
-    for linear in (False, True):
+    modes = (True, False) if spec.get("linear_first") else (False, True)
+    if spec.get("prior_lenient"):
+        # an earlier what-if query with generous tolerances (same shape) must not colour later ones
+        for linear in modes:
+            net.is_feasible(Mnp, linear=linear, violation_tolerance=5.0, relative_tolerance=0.25)
+            iface.is_feasible(dict_sched, linear=linear, violation_tolerance=5.0, relative_tolerance=0.25)
+            infrastructure_constraints_feasible(Mnp, info, linear=linear, violation_tolerance=5.0, relative_tolerance=0.25)
+        labels.add("lenient_query_first")
+    for linear in modes:
         want, worst = phasor.verdict(rows, limits, phases, M, vt, rt, linear=linear)
         res = {
             "network": bool(net.is_feasible(Mnp, linear=linear, **kw)),
@@ -101,6 +111,24 @@ def _compare(spec, net, iface, constraints, rec, stage):
             if abs(worst[2]) <= max(3 * tol, 1e-6) * 1.0001:
                 labels.add("near_boundary_linear" if linear else "near_boundary")
         labels.add(("linear_" if linear else "phasor_") + ("feasible" if want else "infeasible"))
+    # asking is not telling: a query leaves the description it was given untouched, and the same
+    # question asked again (after the other mode was asked) gets the same answer
+    require(
+        np.array_equal(info_before[0], np.asarray(info.constraint_matrix, dtype=float)) and np.array_equal(info_before[1], np.asarray(info.constraint_limits, dtype=float)) and np.array_equal(info_before[2], np.asarray(info.phases, dtype=float)),
+        "query_changed_infrastructure_info",
+        lambda: "%s: a feasibility query changed the InfrastructureInfo it was handed (matrix before %r, after %r)" % (stage, info_before[0].tolist(), np.asarray(info.constraint_matrix).tolist()),
+    )
+    for linear in modes:
+        want, res, worst = got[linear]
+        if want is None:
+            continue
+        again = {
+            "network": bool(net.is_feasible(Mnp, linear=linear, **kw)),
+            "interface": bool(iface.is_feasible(dict_sched, linear=linear, **kw)),
+            "algorithm": bool(infrastructure_constraints_feasible(Mnp, info, linear=linear, violation_tolerance=vt, relative_tolerance=rt)),
+        }
+        for who, r in again.items():
+            require(r == want, "%s_%s_%s_when_asked_again" % (who, "linear" if linear else "phasor", "accepts_infeasible" if r else "rejects_feasible"), lambda: "%s: %s(linear=%r) answered %r the second time, definition says %r" % (stage, who, linear, r, want))
     # the linear relaxation is conservative (on the definition and on every implementation)
     wl, rl, _ = got[True]
     wp, rp, _ = got[False]
@@ -237,6 +265,8 @@ def cases(draw):
             "omit": draw(st.lists(st.sampled_from(ids), unique=True, max_size=n)),
             "dict_order": list(draw(st.permutations(ids))),
             "updates": updates,
+            "linear_first": draw(st.booleans()),
+            "prior_lenient": draw(st.integers(0, 3)) == 0,
         }
     )
     return spec
